@@ -224,29 +224,16 @@ func compareRPMDigits(a, b string) int {
 		return 1
 	}
 
-	// Convert to integers for comparison (this handles leading zeros correctly)
-	aNum, aErr := strconv.ParseUint(a, 10, 64)
-	bNum, bErr := strconv.ParseUint(b, 10, 64)
-
-	if aErr == nil && bErr == nil {
-		if aNum < bNum {
+	// Compare as non-negative integers of any length: ignore leading zeros,
+	// then the longer run is the larger number and runs of equal length
+	// compare digit by digit, which for ASCII digits is the byte order.
+	a = strings.TrimLeft(a, "0")
+	b = strings.TrimLeft(b, "0")
+	if len(a) != len(b) {
+		if len(a) < len(b) {
 			return -1
 		}
-		if aNum > bNum {
-			return 1
-		}
-		return 0
-	}
-
-	// Fallback for very large numbers that don't fit in uint64
-	// Compare by length first (longer number is larger)
-	if len(a) < len(b) {
-		return -1
-	}
-	if len(a) > len(b) {
 		return 1
 	}
-
-	// If lengths are equal, string comparison works for digits
 	return strings.Compare(a, b)
 }
